@@ -18,7 +18,7 @@ def TGT : Nat := 7
 def TOK0 : Nat := 8
 def NTOK : Nat := 4
 def NHOLD : Nat := 8
-def MAX_TTL : Nat := 200000
+def MAX_TTL : Nat := 6312000
 
 def fnNames : List String := ["?", "ping", "add", "add2", "boom", "uadd", "nofn", "transfer", "balance"]
 
@@ -50,7 +50,8 @@ def initM (label : String) : M :=
   let ws := words label
   let mt := (kvNat? ws "min_temp").getD 16
   let st := (kvNat? ws "start").getD 100
-  { p := { cfg := ⟨mt, MAX_TTL⟩, self := FWD, managers := [1], executors := [2, 3] }, s := init st,
+  let mx := (kvNat? ws "max_ttl").getD MAX_TTL
+  { p := { cfg := ⟨mt, mx⟩, self := FWD, managers := [1], executors := [2, 3] }, s := init st,
     var := (kv? ws "v").getD "pl" }
 
 /-- one parsed op line: the authorization, the op, and how to print `dem=` on success -/
@@ -301,6 +302,7 @@ def check (m : Mon) (opl obs : String) : Mon × Option String :=
     let auth := natList ((kv? ws "auth").getD "-")
     -- ghost allowed set: updated by ACCEPTED allow/disallow ops only
     let tokArg := (kvNat? ws "tok").getD 0
+    let nAdv := (kvNat? ws "n").getD 0
     let ghost' : List Nat :=
       if o.ok ∧ kind = "allow" then
         (if (kv? ws "allowed") = some "1" then m.allowed ++ [tokArg] else m.allowed.filter (· ≠ tokArg))
@@ -369,6 +371,8 @@ def check (m : Mon) (opl obs : String) : Mon × Option String :=
           some s!"site=ff.accepted-with-wrong-auth user signed uas={uasS} uat={uatS} but the call is user={user} ({tuple})"
         else checkAllowlist ghost' o
       else if o.callsN ≠ prev.callsN then some "site=ff.spurious-call the target was invoked by a non-forward operation"
+      else if kind = "advance" ∧ (o.alRaw ≠ prev.alRaw ∨ o.toks.map (·.bal) ≠ prev.toks.map (·.bal)) then
+        some s!"site=ff.idle.changed the mere passing of {nAdv} ledgers changed the allow-list getters ({prev.alRaw} -> {o.alRaw}) or a balance"
       else if kind = "allow" then
         let allowed := (kv? ws "allowed") = some "1"
         let oper := (kvNat? ws "op").getD 99
